@@ -41,6 +41,28 @@ def timer_table(ctx):
                 h = c.args[1] if len(c.args) > 1 else None
                 table.setdefault(attr, []).append({"fn": fn, "node": n, "delay": norm.text(c.args[0]) if c.args else None,
                                                    "handler": h.attr if is_self_attr(h) else None, "facts": mf.at(n)})
+    # a timer armed inside a private helper is also armed at every statement `self._helper()` of the same class hierarchy: there the facts of
+    # the call site hold in addition to the helper's own (minus what the helper writes) -- extracting the arming into a method changes nothing
+    funcs = [f for f in hierarchy_funcs(ctx.program, WSP) if not is_test_module(f.module.name)]
+    for _round in range(2):
+        for attr, sites in list(table.items()):
+            for s in list(sites):
+                h = s["fn"]
+                if not h.name.startswith("_") or h.name.startswith("__") or h.parent is not None:
+                    continue
+                writes = {norm.text(t_) for st_ in walk_no_defs(h.node) if isinstance(st_, (ast.Assign, ast.AugAssign))
+                          for t_ in (st_.targets if isinstance(st_, ast.Assign) else [st_.target]) if norm.text(t_)}
+                for fn in funcs:
+                    if fn is h:
+                        continue
+                    g, mf, res = an.get(fn)
+                    for n in g.stmt_nodes():
+                        if n.kind == "stmt" and isinstance(n.ast, ast.Expr) and isinstance(n.ast.value, ast.Call) and self_call(n.ast.value, h.name) \
+                                and not n.ast.value.args and not n.ast.value.keywords:
+                            if any(x["fn"] is fn and x["node"] is n for x in table[attr]):
+                                continue
+                            here = frozenset(f for f in (mf.at(n) or ()) if not norm.fact_killed(f, writes))
+                            table[attr].append({"fn": fn, "node": n, "delay": s["delay"], "handler": s["handler"], "facts": here | frozenset(s["facts"] or ()), "via": h.qualname})
     return table
 
 
@@ -181,6 +203,22 @@ def rule_cancel(ctx):
         g, mf, res = an.get(h)
         clr = lambda x: x.kind == "stmt" and assigns_self_attr(x.ast, attr) is not None and norm.key(assigns_self_attr(x.ast, attr)) == ("c", None)
         ctx.ob(f"{handler} clears {attr} on every path", g.always_followed_by(g.entry, clr), "handler leaves a stale handle", h.loc())
+    # the close-handshake timer is dealt with (tested for being armed, or cancelled) on EVERY path on which the peer's reply to our close
+    # frame arrives -- in both roles: a stale timer would fail a peer that met its deadline
+    fn = ctx.program.func(f"{WSP}.onCloseFrame")
+    g, mf, res = an.get(fn)
+    S_CLOSING = ctx.program.class_const(wsp, "STATE_CLOSING")
+    entries = []
+    for n in g.stmt_nodes():
+        if n.kind == "test":
+            for m, lab in n.succ:
+                if lab and lab[0] in ("T", "F") and ("eq", "self.state", ("c", S_CLOSING), True) in norm.atoms(lab[1], lab[0] == "T", res):
+                    entries.append(m)
+    deals = lambda x: any(norm.text(c.func) == "self.closeHandshakeTimeoutCall.cancel" for c in node_calls(x)) or \
+        (x.kind == "test" and "self.closeHandshakeTimeoutCall" in norm.mentions_of(x.ast))
+    ok = bool(entries) and all(deals(m) or g.always_followed_by(m, deals, exc=False) for m in entries)
+    ctx.ob("onCloseFrame: the close-handshake timer is dealt with on every path of the reply-to-our-close branch (both roles)", ok,
+           "a path through the CLOSING branch leaves the close-handshake timer armed: it later fails a peer that answered in time", fn.loc())
     # open-handshake cancel happens after the transition to OPEN on the success path
     for q in (f"{WSS}.succeedHandshake", f"{WSC}.processHandshake"):
         fn = ctx.program.func(q)
